@@ -17,6 +17,7 @@ func readFile(name string) ([]byte, error) { return os.ReadFile(name) }
 
 // Frame is the context in which Go code (real or spec) is symbolically executed.
 type Frame struct {
+	rangeIdx  []envKey // index variables of the enclosing slice/int range loops
 	vc        *VC
 	pk        *packages.Package
 	fi        *FuncInfo // function whose body is executed (loop specs / anchors); nil for spec code
@@ -203,7 +204,10 @@ func (f *Frame) expr(st *State, e ast.Expr) Term {
 			if cl, ok := e.X.(*ast.CompositeLit); ok {
 				return f.allocStruct(st, cl)
 			}
-			vc.fail(e.Pos(), "address-of is only supported on composite literals")
+			if r, ok := f.opaqueVarAddr(st, e.X); ok {
+				return r
+			}
+			vc.fail(e.Pos(), "address-of is only supported on composite literals and on local variables of external struct types")
 		}
 		vc.fail(e.Pos(), "unsupported unary operator %s", e.Op)
 	case *ast.BinaryExpr:
@@ -822,6 +826,27 @@ func (f *Frame) store(st *State, l Loc, v Term, pos token.Pos) {
 		gv := l.obj.(*types.Var)
 		vc.heapSet(st, ghostMapKey(gv), vc.define("gm", Store(f.ghostMapArr(st, gv), l.idx, v)))
 	}
+}
+
+// opaqueVarAddr: the address of a local variable of an opaque external struct type (bytes.Buffer,
+// sync.Mutex ...): a reference allocated on first use and remembered per variable. kvc never looks inside
+// such a struct, so the variable is represented by its identity alone.
+func (f *Frame) opaqueVarAddr(st *State, e ast.Expr) (Term, bool) {
+	id, ok := ast.Unparen(e).(*ast.Ident)
+	if !ok {
+		return Term{}, false
+	}
+	v, ok := f.info().Uses[id].(*types.Var)
+	if !ok || v.IsField() || (v.Pkg() != nil && v.Parent() == v.Pkg().Scope()) || !isOpaqueStruct(v.Type()) {
+		return Term{}, false
+	}
+	key := envKey{v, "&"}
+	if r, ok := st.env[key]; ok {
+		return r, true
+	}
+	r := f.vc.newRefT(st, "addr_"+mangle(id.Name), types.NewPointer(v.Type()))
+	st.env[key] = r
+	return r, true
 }
 
 // heapStructPath: e denotes a struct value embedded in a heap object or global (x.f with x a pointer, or a
